@@ -43,3 +43,32 @@ Definition induced_splits (t g : utree) (R : list string) : bool :=
   keys_eq (nontrivial_keys g) (restrict R (map sside (usplits t))).
 Definition induced_dists (t g : utree) (R : list string) : bool :=
   matrix_eqb (dist_matrix len0 g) (restrict_dists len0 t R).
+
+(** ** single-child inner nodes: none may be created by the pruning *)
+(** the (restricted, non-empty) leaf sets below the non-root nodes with exactly two neighbours *)
+Fixpoint single_clades_sub (f : list string -> list string) (t : utree) : list (list string) :=
+  match t with
+  | UNode _ _ sl =>
+    (if Nat.eqb (length sl) 2 then match f (leaves t) with [] => [] | L => [L] end else []) ++
+    flat_map (fun s => match s with Some (_, c) => single_clades_sub f c | None => [] end) sl
+  end.
+Definition single_clades (f : list string -> list string) (t : utree) : list (list string) :=
+  flat_map (fun p => single_clades_sub f (snd p)) (kids t).
+
+Fixpoint remove_key (k : list string) (l : list (list string)) : option (list (list string)) :=
+  match l with
+  | [] => None
+  | x :: r => if sset_eqb k x then Some r
+              else match remove_key k r with Some r' => Some (x :: r') | None => None end
+  end.
+Fixpoint keys_msub (a b : list (list string)) : bool :=
+  match a with
+  | [] => true
+  | k :: r => match remove_key k b with Some b' => keys_msub r b' | None => false end
+  end.
+
+(** every single-child node of [g] (with its leaf set) is accounted for by a single-child node of [t]
+    whose leaf set restricted to the kept tips [R] is the same: the pruning created none.
+    On an input without single-child nodes this is [no_single g]. *)
+Definition singles_not_created (t g : utree) (R : list string) : bool :=
+  keys_msub (single_clades (fun L => sset L) g) (single_clades (fun L => sinter (sset L) R) t).
